@@ -9,8 +9,22 @@ use crate::blockchain::parser::blkfile::vk_blkfile_c03 as bx;
 use crate::verif_models::hooks;
 use crate::verif_models::fs as gfs;
 
+/// Builds a ChainStorage field by field on zeroed memory instead of with a struct literal, so that the
+/// harnesses still compile (and still exercise the real methods) when a change adds a field to the struct,
+/// e.g. a cache; such a field starts zeroed (None / 0 / false).
+pub fn mk_cs(chain_index: ChainIndex, blk_files: HashMap<u64, BlkFile>, coin: CoinType, verify: bool) -> ChainStorage {
+    unsafe {
+        let mut cs = core::mem::MaybeUninit::<ChainStorage>::zeroed();
+        let p = cs.as_mut_ptr();
+        core::ptr::write(core::ptr::addr_of_mut!((*p).chain_index), chain_index);
+        core::ptr::write(core::ptr::addr_of_mut!((*p).blk_files), blk_files);
+        core::ptr::write(core::ptr::addr_of_mut!((*p).coin), coin);
+        core::ptr::write(core::ptr::addr_of_mut!((*p).verify), verify);
+        cs.assume_init()
+    }
+}
 pub fn mk_storage_stub(max_height: u64) -> ChainStorage {
-    ChainStorage { chain_index: ix::mk_index(max_height, ix::new_map(), ix::new_map()), blk_files: HashMap::new(), coin: ix::mk_coin(0, None), verify: false }
+    mk_cs(ix::mk_index(max_height, ix::new_map(), ix::new_map()), HashMap::new(), ix::mk_coin(0, None), false)
 }
 
 // The height -> file assignment is part of the shape (concrete per instance: a symbolic assignment
@@ -57,7 +71,7 @@ macro_rules! get_block_one {
                 f += 1;
             }
             let opens_before = unsafe { gfs::OPENS.v };
-            let mut cs = ChainStorage { chain_index: ix::mk_index(T as u64, bi, mhb), blk_files: files, coin: ix::mk_coin(0, None), verify: false };
+            let mut cs = mk_cs(ix::mk_index(T as u64, bi, mhb), files, ix::mk_coin(0, None), false);
             unsafe { hooks::RB_STUB_ON.v = true; }
             let r = cs.get_block(hq);
             let calls = unsafe { hooks::RB_CALLS.v };
@@ -143,6 +157,71 @@ get_block_one!(c02_gbo_1001_h1, 3, [1, 0, 0, 1], 1);
 //@ id=C02,C03,C17,C10 tier=thorough name=c02_gbo_1001_h3 timeout=1200 role=get_block_one bound=heights-0..3-in-files-1,0,0,1(file-1-needed-again-later),queried-height-3,offsets-full-u64,any-open/closed-pre-state fn=ChainStorage::get_block,ChainIndex::get,ChainIndex::max_height_by_blk,BlkFile::open,BlkFile::close
 get_block_one!(c02_gbo_1001_h3, 3, [1, 0, 0, 1], 3);
 
+// ---- C17 two consecutive steps: state carried from one get_block to the next (e.g. caches) --------------
+// Layout: heights 0..3 in files 0,1,0,1. After get_block(h1) and get_block(h2) (both concrete, ascending),
+// every file whose highest block has been delivered is closed and every other touched file is open.
+macro_rules! two_steps {
+    ($name:ident, [$f0:expr, $f1:expr, $f2:expr, $f3:expr], $h1:expr, $h2:expr) => {
+        #[kani::proof]
+        #[kani::unwind(8)]
+        #[kani::stub(crate::blockchain::proto::script::eval_from_bytes, crate::blockchain::parser::reader::vk_reader_c01::stub_eval)]
+        #[kani::stub(<bitcoin::hashes::sha256::HashEngine as bitcoin::hashes::HashEngine>::input, crate::verif_models::ghost::stub_engine_input)]
+        #[kani::stub(<bitcoin::hashes::sha256d::Hash as bitcoin::hashes::Hash>::from_engine, crate::verif_models::ghost::stub_sha256d_fin)]
+        #[kani::stub(<bitcoin::hashes::hash160::Hash as bitcoin::hashes::Hash>::from_engine, crate::verif_models::ghost::stub_hash160_fin)]
+        fn $name() {
+            const FILE: [usize; 4] = [$f0, $f1, $f2, $f3];
+            let off: [u64; 4] = kani::any();
+            let mut bi = ix::new_map();
+            let mut mhb: HashMap<u64, u64> = ix::new_map();
+            let mut last = [-1i64; 2];
+            let mut h = 0usize;
+            while h < 4 {
+                bi.insert(h as u64, ix::mk_record([0; 32], h as u64, FILE[h] as u64, off[h]));
+                last[FILE[h]] = h as i64;
+                h += 1;
+            }
+            mhb.insert(0, last[0] as u64);
+            mhb.insert(1, last[1] as u64);
+            let mut files: HashMap<u64, BlkFile> = HashMap::new();
+            files.insert(0, bx::mk_blkfile(0));
+            files.insert(1, bx::mk_blkfile(1));
+            let mut cs = mk_cs(ix::mk_index(3, bi, mhb), files, ix::mk_coin(0, None), false);
+            unsafe { hooks::RB_STUB_ON.v = true; }
+            let r1 = cs.get_block($h1);
+            let r2 = cs.get_block($h2);
+            assert!(matches!(r1, Ok(Some(_))) && matches!(r2, Ok(Some(_))), "C03:indexed_block_is_delivered");
+            unsafe {
+                assert!(hooks::RB_CALLS.v == 2 && hooks::RB_OFFSET.v[0] == off[$h1] && hooks::RB_OFFSET.v[1] == off[$h2], "C03:block_read_at_the_offset_its_record_names");
+                assert!(hooks::RB_FILE.v[0] == FILE[$h1] as u64 && hooks::RB_FILE.v[1] == FILE[$h2] as u64, "C03:block_read_from_the_file_its_record_names");
+            }
+            let mut k = 0usize;
+            while k < 2 {
+                let touched = FILE[$h1] == k || FILE[$h2] == k;
+                let open = bx::is_open(cs.blk_files.get(&(k as u64)).unwrap());
+                let last_touch: i64 = if FILE[$h2] == k { $h2 } else { $h1 };
+                if touched {
+                    assert!(open == (last_touch < last[k]), "C17:file_closed_iff_its_highest_block_was_delivered");
+                } else {
+                    assert!(!open, "C17:other_files_untouched");
+                }
+                k += 1;
+            }
+            kani::cover!(true, "two steps evaluated");
+            core::mem::forget(r1);
+            core::mem::forget(r2);
+            core::mem::forget(cs);
+        }
+    };
+}
+//@ id=C17,C03 tier=quick name=c17_steps_0101_1_2 timeout=900 role=two_steps bound=files-0,1,0,1;get_block(1)-then-get_block(2):file-0-must-close-after-a-block-of-file-1 fn=ChainStorage::get_block,BlkFile::open,BlkFile::close
+two_steps!(c17_steps_0101_1_2, [0, 1, 0, 1], 1, 2);
+//@ id=C17,C03 tier=quick name=c17_steps_0101_2_3 timeout=900 role=two_steps bound=files-0,1,0,1;get_block(2)-then-get_block(3):both-files-closed
+two_steps!(c17_steps_0101_2_3, [0, 1, 0, 1], 2, 3);
+//@ id=C17,C03 tier=quick name=c17_steps_1001_0_1 timeout=900 role=two_steps bound=files-1,0,0,1;get_block(0)-then-get_block(1):file-1-stays-open
+two_steps!(c17_steps_1001_0_1, [1, 0, 0, 1], 0, 1);
+//@ id=C17,C03 tier=thorough name=c17_steps_0011_1_2 timeout=900 role=two_steps bound=files-0,0,1,1;get_block(1)-then-get_block(2):file-0-closed,file-1-open
+two_steps!(c17_steps_0011_1_2, [0, 0, 1, 1], 1, 2);
+
 // ---- C09 verify_iff ---------------------------------------------------------------------------
 // ChainStorage::verify(block, h): Ok iff computed merkle root == header root and (h == 0: header hash
 // == coin genesis hash; h > 0: header prev-hash == indexed hash of height h-1).
@@ -185,7 +264,7 @@ fn c09_verify_iff() {
     while k < 3 { bi.insert(k as u64, ix::mk_record(idx_hash[k], k as u64, 0, 8)); k += 1; }
     let mut coin = ix::mk_coin(0, None);
     coin.genesis_hash = sha256d::Hash::from_byte_array(genesis);
-    let cs = ChainStorage { chain_index: ix::mk_index(2, bi, ix::new_map()), blk_files: HashMap::new(), coin, verify: true };
+    let cs = mk_cs(ix::mk_index(2, bi, ix::new_map()), HashMap::new(), coin, true);
     let r = cs.verify(&block, h);
     // single-transaction block: the merkle root is the txid itself
     let merkle_ok = arr_eq(&txid, &root_field);
